@@ -241,8 +241,11 @@ class Response:
 
 
 def call(method, path, body=None, version="1.39", token="admin", roles=None,
-         headers=None, app=None, raw_body=None, content_type=None):
-    """One request through the complete real WSGI stack."""
+         headers=None, app=None, raw_body=None, content_type=None,
+         environ=None):
+    """One request through the complete real WSGI stack.  environ: WSGI
+    environ entries set after the request object is built (e.g. a
+    CONTENT_LENGTH that does not describe the body)."""
     h = {'accept': 'application/json'}
     if token is not None:
         h['x-auth-token'] = token
@@ -267,6 +270,8 @@ def call(method, path, body=None, version="1.39", token="admin", roles=None,
     if headers:
         h.update(headers)
     req = webob.Request.blank(path, method=method, headers=h, **kw)
+    if environ:
+        req.environ.update(environ)
     r = Response(req.get_response(app or APP))
     # whether the request's Accept header admits JSON (the error-body clause
     # of C15 is conditional on it)
